@@ -6918,18 +6918,25 @@ func (e *ExpressionEmitter) emitMath(mathExpr ir.ExprMath) (uint32, error) {
 
 	// Bit manipulation functions
 	case ir.MathCountTrailingZeros:
-		// WGSL countTrailingZeros -> GLSL.std.450 FindILsb
-		glslInst = GLSLstd450FindILsb
+		// countTrailingZeros(x) = UMin(32, FindILsb(x)): FindILsb yields -1 (all ones) for 0.
+		{
+			c32, err := e.splatIntConstant(argType, 32)
+			if err != nil {
+				return 0, err
+			}
+			lsbID := e.backend.builder.AddExtInst(resultType, e.backend.glslExtID, GLSLstd450FindILsb, argID)
+			return e.backend.builder.AddExtInst(resultType, e.backend.glslExtID, GLSLstd450UMin, c32, lsbID), nil
+		}
 	case ir.MathCountLeadingZeros:
-		// WGSL countLeadingZeros -> polyfill: (31 - FindUMsb(x)) for u32, or FindSMsb for i32
-		// Simplified: use FindUMsb for unsigned, FindSMsb for signed
-		// Note: GLSL FindUMsb returns the bit position of the MSB (undefined for 0)
-		// WGSL countLeadingZeros expects the count. We emit FindUMsb/FindSMsb and
-		// the result subtraction is done at IR level by the lowerer.
-		if scalarKind == ir.ScalarSint {
-			glslInst = GLSLstd450FindSMsb
-		} else {
-			glslInst = GLSLstd450FindUMsb
+		// countLeadingZeros(x) = 31 - FindUMsb(x): FindUMsb yields -1 for 0, and reads a
+		// negative i32 as unsigned (bit 31 set, no leading zeros).
+		{
+			c31, err := e.splatIntConstant(argType, 31)
+			if err != nil {
+				return 0, err
+			}
+			msbID := e.backend.builder.AddExtInst(resultType, e.backend.glslExtID, GLSLstd450FindUMsb, argID)
+			return e.backend.builder.AddBinaryOp(OpISub, resultType, c31, msbID), nil
 		}
 	case ir.MathCountOneBits:
 		// OpBitCount is a native SPIR-V instruction
@@ -10286,4 +10293,33 @@ func float32ToF16Bits(f float32) uint32 {
 		// Too small → zero
 		return uint32(sign)
 	}
+}
+
+// splatIntConstant returns a constant of the integer scalar or vector type res
+// with every component equal to value.
+func (e *ExpressionEmitter) splatIntConstant(res ir.TypeResolution, value uint32) (uint32, error) {
+	var scalar ir.ScalarType
+	var size uint32
+	switch t := ir.TypeResInner(e.backend.module, res).(type) {
+	case ir.ScalarType:
+		scalar = t
+	case ir.VectorType:
+		scalar = t.Scalar
+		size = uint32(t.Size)
+	default:
+		return 0, fmt.Errorf("integer builtin on non-integer type %T", t)
+	}
+	scalarID, err := e.backend.emitScalarType(scalar)
+	if err != nil {
+		return 0, err
+	}
+	id := e.backend.builder.AddConstant(scalarID, value)
+	if size == 0 {
+		return id, nil
+	}
+	comps := make([]uint32, size)
+	for i := range comps {
+		comps[i] = id
+	}
+	return e.backend.builder.AddConstantComposite(e.backend.emitVectorType(scalarID, size), comps...), nil
 }
